@@ -1,17 +1,16 @@
 #!/bin/bash
-# usage: allcheck.sh <patch.diff> — applies a patch to /repo, runs ALL quick checks (evidence to a scratch dir), reverts.
-# Used to look for false alarms on behaviour-preserving refactorings and for cross-property effects of seeded changes.
+# usage: allcheck.sh <patch.diff> — applies a patch to /repo, runs the rules of ALL 20 properties on it (quick tier, one
+# load, developer mode `-prop ALL`, evidence to a scratch dir), reverts. Used to look for false alarms on
+# behaviour-preserving refactorings and for cross-property effects of seeded changes.
+export GOFLAGS=-mod=mod GOPROXY=off GOSUMDB=off GOTOOLCHAIN=local PATH=/opt/veriftools/go1.26.8/bin:$PATH; unset GOWORK
 patch=$1
+if [ ! -x /verif/bin/ollacheck ] || [ -n "$(find /verif/checker -name '*.go' -newer /verif/bin/ollacheck 2>/dev/null | head -1)" ]; then
+  (cd /verif/checker && go build -o /verif/bin/ollacheck .) || { echo "checker build failed"; exit 2; }
+fi
 cd /repo || exit 2
 [ -n "$(git status --porcelain)" ] && { echo "repo not clean"; exit 2; }
 git apply "$patch" 2>/dev/null || { echo "PATCH-DOES-NOT-APPLY"; exit 3; }
-v=/tmp/allcheck.$$; mkdir -p $v; cp /verif/known_findings.json $v/
-seq -f "C%02g" 1 20 | xargs -P 10 -I{} sh -c "/verif/bin/ollacheck -prop {} -tier quick -repo /repo -verif $v -q > $v/{}.log 2>&1"
-n=0
-for f in $v/C*.log; do
-  if grep -q "^VIOLATION rule\|^UNDECIDED\|^UNRESOLVED\|^LOAD-ERROR" $f; then
-    n=$((n+1)); echo "--- $(basename $f .log)"; grep "^VIOLATION rule\|^UNDECIDED\|^UNRESOLVED\|^LOAD-ERROR" $f | cut -c1-330
-  fi
-done
-echo "checks raising an alarm: $n"
+v=/tmp/allcheck.$$; mkdir -p $v; cp /verif/known_findings.json /verif/anchors.json $v/
+/verif/bin/ollacheck -prop ALL -tier quick -repo /repo -verif $v -q > $v/all.log 2>&1
+awk '/^=== /{p=$2} /^VIOLATION rule|^UNDECIDED|^UNRESOLVED|^LOAD-ERROR/{if(!(p in seen)){seen[p]=1; n++; print "--- " p} print substr($0,1,330)} END{print "checks raising an alarm: " n+0}' $v/all.log
 git checkout -- . ; git clean -fdq; rm -rf $v
